@@ -94,7 +94,8 @@ More(r) == IF Kind[r] = "stream" THEN clock <= Stop /\ ~Aborted(r) ELSE left[r] 
 AfterLoop(r) == IF holds[r] THEN "unlock" ELSE "done"
 \* Externalising the session: intended - while the request still holds the lock, so that the store never receives an older
 \* session after a newer one.  Deviation D19c: the multi-step requests release the lock first and externalise afterwards.
-SaveLate(r) == "D19c_save_after_unlock" \in Dev /\ Kind[r] # "step"
+\* (D19d: run-step does the same)
+SaveLate(r) == IF Kind[r] = "step" THEN "D19d_step_save_after_unlock" \in Dev ELSE "D19c_save_after_unlock" \in Dev
 End(r) == IF Kind[r] = "stream" /\ ~Aborted(r) THEN "close" ELSE "done"
 AfterSteps(r) == IF Store /\ ~SaveLate(r) THEN "snap" ELSE AfterLoop(r)
 \* top of an iteration: loop condition, then run_step reads the clock
